@@ -80,6 +80,9 @@ import (
 	"github.com/gopacket/gopacket"
 )
 
+// errSFlowRecordTooShort is returned when a sample or record announces more data than the datagram holds.
+var errSFlowRecordTooShort = errors.New("SFlow record too short")
+
 // SFlowRecord holds both flow sample records and counter sample records.
 // A Record is the structure that actually holds the sampled data
 // and / or counters.
@@ -463,14 +466,25 @@ func (fs SFlowFlowSample) GetType() SFlowSampleType {
 	return SFlowTypeFlowSample
 }
 
-func skipRecord(data *[]byte) {
+func skipRecord(data *[]byte) error {
+	if len(*data) < 8 {
+		return errSFlowRecordTooShort
+	}
 	recordLength := int(binary.BigEndian.Uint32((*data)[4:]))
-	*data = (*data)[(recordLength+((4-recordLength)%4))+8:]
+	skip := (recordLength + ((4 - recordLength) % 4)) + 8
+	if skip < 8 || skip > len(*data) {
+		return errSFlowRecordTooShort
+	}
+	*data = (*data)[skip:]
+	return nil
 }
 
 func decodeFlowSample(data *[]byte, expanded bool) (SFlowFlowSample, error) {
 	s := SFlowFlowSample{}
 	var sdf SFlowDataFormat
+	if len(*data) < 4 {
+		return s, errSFlowRecordTooShort
+	}
 	*data, sdf = (*data)[4:], SFlowDataFormat(binary.BigEndian.Uint32((*data)[:4]))
 	var sdc SFlowDataSource
 
@@ -545,6 +559,9 @@ func decodeFlowSample(data *[]byte, expanded bool) (SFlowFlowSample, error) {
 	*data, s.RecordCount = (*data)[4:], binary.BigEndian.Uint32((*data)[:4])
 
 	for i := uint32(0); i < s.RecordCount; i++ {
+		if len(*data) < 4 {
+			return s, errSFlowRecordTooShort
+		}
 		rdf := SFlowFlowDataFormat(binary.BigEndian.Uint32((*data)[:4]))
 		enterpriseID, flowRecordType := rdf.decode()
 
@@ -609,31 +626,45 @@ func decodeFlowSample(data *[]byte, expanded bool) (SFlowFlowSample, error) {
 				}
 			case SFlowTypeExtendedMlpsFlow:
 				// TODO
-				skipRecord(data)
+				if err := skipRecord(data); err != nil {
+					return s, err
+				}
 				return s, errors.New("skipping TypeExtendedMlpsFlow")
 			case SFlowTypeExtendedNatFlow:
 				// TODO
-				skipRecord(data)
+				if err := skipRecord(data); err != nil {
+					return s, err
+				}
 				return s, errors.New("skipping TypeExtendedNatFlow")
 			case SFlowTypeExtendedMlpsTunnelFlow:
 				// TODO
-				skipRecord(data)
+				if err := skipRecord(data); err != nil {
+					return s, err
+				}
 				return s, errors.New("skipping TypeExtendedMlpsTunnelFlow")
 			case SFlowTypeExtendedMlpsVcFlow:
 				// TODO
-				skipRecord(data)
+				if err := skipRecord(data); err != nil {
+					return s, err
+				}
 				return s, errors.New("skipping TypeExtendedMlpsVcFlow")
 			case SFlowTypeExtendedMlpsFecFlow:
 				// TODO
-				skipRecord(data)
+				if err := skipRecord(data); err != nil {
+					return s, err
+				}
 				return s, errors.New("skipping TypeExtendedMlpsFecFlow")
 			case SFlowTypeExtendedMlpsLvpFecFlow:
 				// TODO
-				skipRecord(data)
+				if err := skipRecord(data); err != nil {
+					return s, err
+				}
 				return s, errors.New("skipping TypeExtendedMlpsLvpFecFlow")
 			case SFlowTypeExtendedVlanFlow:
 				// TODO
-				skipRecord(data)
+				if err := skipRecord(data); err != nil {
+					return s, err
+				}
 				return s, errors.New("skipping TypeExtendedVlanFlow")
 			case SFlowTypeExtendedIpv4TunnelEgressFlow:
 				if record, err := decodeExtendedIpv4TunnelEgress(data); err == nil {
@@ -687,7 +718,9 @@ func decodeFlowSample(data *[]byte, expanded bool) (SFlowFlowSample, error) {
 				return s, fmt.Errorf("Unsupported flow record type: %d", flowRecordType)
 			}
 		} else {
-			skipRecord(data)
+			if err := skipRecord(data); err != nil {
+				return s, err
+			}
 		}
 	}
 	return s, nil
@@ -799,6 +832,9 @@ func decodeCounterSample(data *[]byte, expanded bool) (SFlowCounterSample, error
 	var sdce SFlowDataSourceExpanded
 	var sdf SFlowDataFormat
 
+	if len(*data) < 20 || (expanded && len(*data) < 24) {
+		return s, errSFlowRecordTooShort
+	}
 	*data, sdf = (*data)[4:], SFlowDataFormat(binary.BigEndian.Uint32((*data)[:4]))
 	s.EnterpriseID, s.Format = sdf.decode()
 	*data, s.SampleLength = (*data)[4:], binary.BigEndian.Uint32((*data)[:4])
@@ -813,6 +849,9 @@ func decodeCounterSample(data *[]byte, expanded bool) (SFlowCounterSample, error
 	*data, s.RecordCount = (*data)[4:], binary.BigEndian.Uint32((*data)[:4])
 
 	for i := uint32(0); i < s.RecordCount; i++ {
+		if len(*data) < 4 {
+			return s, errSFlowRecordTooShort
+		}
 		cdf := SFlowCounterDataFormat(binary.BigEndian.Uint32((*data)[:4]))
 		_, counterRecordType := cdf.decode()
 		switch counterRecordType {
@@ -829,10 +868,14 @@ func decodeCounterSample(data *[]byte, expanded bool) (SFlowCounterSample, error
 				return s, err
 			}
 		case SFlowTypeTokenRingInterfaceCounters:
-			skipRecord(data)
+			if err := skipRecord(data); err != nil {
+				return s, err
+			}
 			return s, errors.New("skipping TypeTokenRingInterfaceCounters")
 		case SFlowType100BaseVGInterfaceCounters:
-			skipRecord(data)
+			if err := skipRecord(data); err != nil {
+				return s, err
+			}
 			return s, errors.New("skipping Type100BaseVGInterfaceCounters")
 		case SFlowTypeVLANCounters:
 			if record, err := decodeVLANCounters(data); err == nil {
@@ -1079,6 +1122,9 @@ func decodeRawPacketFlowRecord(data *[]byte) (SFlowRawPacketFlowRecord, error) {
 	header := []byte{}
 	var fdf SFlowFlowDataFormat
 
+	if len(*data) < 24 {
+		return rec, errSFlowRecordTooShort
+	}
 	*data, fdf = (*data)[4:], SFlowFlowDataFormat(binary.BigEndian.Uint32((*data)[:4]))
 	rec.EnterpriseID, rec.Format = fdf.decode()
 	*data, rec.FlowDataLength = (*data)[4:], binary.BigEndian.Uint32((*data)[:4])
@@ -1087,6 +1133,9 @@ func decodeRawPacketFlowRecord(data *[]byte) (SFlowRawPacketFlowRecord, error) {
 	*data, rec.PayloadRemoved = (*data)[4:], binary.BigEndian.Uint32((*data)[:4])
 	*data, rec.HeaderLength = (*data)[4:], binary.BigEndian.Uint32((*data)[:4])
 	headerLenWithPadding := int(rec.HeaderLength + ((4 - rec.HeaderLength) % 4))
+	if headerLenWithPadding > len(*data) {
+		return rec, errSFlowRecordTooShort
+	}
 	*data, header = (*data)[headerLenWithPadding:], (*data)[:headerLenWithPadding]
 	rec.Header = gopacket.NewPacket(header, LayerTypeEthernet, gopacket.Default)
 	return rec, nil
@@ -1122,6 +1171,9 @@ type SFlowExtendedSwitchFlowRecord struct {
 //	  +--+--+--+--+--+--+--+--+--+--+--+--+--+--+--+--+
 
 func decodeExtendedSwitchFlowRecord(data *[]byte) (SFlowExtendedSwitchFlowRecord, error) {
+	if len(*data) < 24 {
+		return SFlowExtendedSwitchFlowRecord{}, errSFlowRecordTooShort
+	}
 	es := SFlowExtendedSwitchFlowRecord{}
 	var fdf SFlowFlowDataFormat
 
@@ -1168,10 +1220,16 @@ func decodeExtendedRouterFlowRecord(data *[]byte) (SFlowExtendedRouterFlowRecord
 	var fdf SFlowFlowDataFormat
 	var extendedRouterAddressType SFlowIPType
 
+	if len(*data) < 12 {
+		return er, errSFlowRecordTooShort
+	}
 	*data, fdf = (*data)[4:], SFlowFlowDataFormat(binary.BigEndian.Uint32((*data)[:4]))
 	er.EnterpriseID, er.Format = fdf.decode()
 	*data, er.FlowDataLength = (*data)[4:], binary.BigEndian.Uint32((*data)[:4])
 	*data, extendedRouterAddressType = (*data)[4:], SFlowIPType(binary.BigEndian.Uint32((*data)[:4]))
+	if len(*data) < extendedRouterAddressType.Length()+8 {
+		return er, errSFlowRecordTooShort
+	}
 	*data, er.NextHop = (*data)[extendedRouterAddressType.Length():], (*data)[:extendedRouterAddressType.Length()]
 	*data, er.NextHopSourceMask = (*data)[4:], binary.BigEndian.Uint32((*data)[:4])
 	*data, er.NextHopDestinationMask = (*data)[4:], binary.BigEndian.Uint32((*data)[:4])
@@ -1284,6 +1342,9 @@ func (asd SFlowASDestination) String() string {
 }
 
 func (ad *SFlowASDestination) decodePath(data *[]byte) error {
+	if len(*data) < 8 {
+		return errSFlowRecordTooShort
+	}
 	*data, ad.Type = (*data)[4:], SFlowASPathType(binary.BigEndian.Uint32((*data)[:4]))
 	*data, ad.Count = (*data)[4:], binary.BigEndian.Uint32((*data)[:4])
 	// ad.Count is an attacker-controlled 32-bit field and each member that
@@ -1309,10 +1370,16 @@ func decodeExtendedGatewayFlowRecord(data *[]byte) (SFlowExtendedGatewayFlowReco
 	var communitiesLength uint32
 	var community uint32
 
+	if len(*data) < 12 {
+		return eg, errSFlowRecordTooShort
+	}
 	*data, fdf = (*data)[4:], SFlowFlowDataFormat(binary.BigEndian.Uint32((*data)[:4]))
 	eg.EnterpriseID, eg.Format = fdf.decode()
 	*data, eg.FlowDataLength = (*data)[4:], binary.BigEndian.Uint32((*data)[:4])
 	*data, extendedGatewayAddressType = (*data)[4:], SFlowIPType(binary.BigEndian.Uint32((*data)[:4]))
+	if len(*data) < extendedGatewayAddressType.Length()+16 {
+		return eg, errSFlowRecordTooShort
+	}
 	*data, eg.NextHop = (*data)[extendedGatewayAddressType.Length():], (*data)[:extendedGatewayAddressType.Length()]
 	*data, eg.AS = (*data)[4:], binary.BigEndian.Uint32((*data)[:4])
 	*data, eg.SourceAS = (*data)[4:], binary.BigEndian.Uint32((*data)[:4])
@@ -1324,6 +1391,9 @@ func decodeExtendedGatewayFlowRecord(data *[]byte) (SFlowExtendedGatewayFlowReco
 			return eg, err
 		}
 		eg.ASPath = append(eg.ASPath, asPath)
+	}
+	if len(*data) < 4 {
+		return eg, errSFlowRecordTooShort
 	}
 	*data, communitiesLength = (*data)[4:], binary.BigEndian.Uint32((*data)[:4])
 	// communitiesLength is an attacker-controlled 32-bit field and each
@@ -1338,6 +1408,9 @@ func decodeExtendedGatewayFlowRecord(data *[]byte) (SFlowExtendedGatewayFlowReco
 	for j := uint32(0); j < communitiesLength; j++ {
 		*data, community = (*data)[4:], binary.BigEndian.Uint32((*data)[:4])
 		eg.Communities[j] = community
+	}
+	if len(*data) < 4 {
+		return eg, errSFlowRecordTooShort
 	}
 	*data, eg.LocalPref = (*data)[4:], binary.BigEndian.Uint32((*data)[:4])
 	return eg, nil
@@ -1395,16 +1468,25 @@ func decodeExtendedURLRecord(data *[]byte) (SFlowExtendedURLRecord, error) {
 	var urlBytes []byte
 	var hostBytes []byte
 
+	if len(*data) < 16 {
+		return eur, errSFlowRecordTooShort
+	}
 	*data, fdf = (*data)[4:], SFlowFlowDataFormat(binary.BigEndian.Uint32((*data)[:4]))
 	eur.EnterpriseID, eur.Format = fdf.decode()
 	*data, eur.FlowDataLength = (*data)[4:], binary.BigEndian.Uint32((*data)[:4])
 	*data, eur.Direction = (*data)[4:], SFlowURLDirection(binary.BigEndian.Uint32((*data)[:4]))
 	*data, urlLen = (*data)[4:], binary.BigEndian.Uint32((*data)[:4])
 	urlLenWithPad = int(urlLen + ((4 - urlLen) % 4))
+	if int(urlLen) > urlLenWithPad || urlLenWithPad+4 > len(*data) {
+		return eur, errSFlowRecordTooShort
+	}
 	*data, urlBytes = (*data)[urlLenWithPad:], (*data)[:urlLenWithPad]
 	eur.URL = string(urlBytes[:urlLen])
 	*data, hostLen = (*data)[4:], binary.BigEndian.Uint32((*data)[:4])
 	hostLenWithPad = int(hostLen + ((4 - hostLen) % 4))
+	if int(hostLen) > hostLenWithPad || hostLenWithPad > len(*data) {
+		return eur, errSFlowRecordTooShort
+	}
 	*data, hostBytes = (*data)[hostLenWithPad:], (*data)[:hostLenWithPad]
 	eur.Host = string(hostBytes[:hostLen])
 	return eur, nil
@@ -1711,17 +1793,26 @@ func decodeExtendedUserFlow(data *[]byte) (SFlowExtendedUserFlow, error) {
 	var dstUserLenWithPad int
 	var dstUserBytes []byte
 
+	if len(*data) < 16 {
+		return eu, errSFlowRecordTooShort
+	}
 	*data, fdf = (*data)[4:], SFlowFlowDataFormat(binary.BigEndian.Uint32((*data)[:4]))
 	eu.EnterpriseID, eu.Format = fdf.decode()
 	*data, eu.FlowDataLength = (*data)[4:], binary.BigEndian.Uint32((*data)[:4])
 	*data, eu.SourceCharSet = (*data)[4:], SFlowCharSet(binary.BigEndian.Uint32((*data)[:4]))
 	*data, srcUserLen = (*data)[4:], binary.BigEndian.Uint32((*data)[:4])
 	srcUserLenWithPad = int(srcUserLen + ((4 - srcUserLen) % 4))
+	if int(srcUserLen) > srcUserLenWithPad || srcUserLenWithPad+8 > len(*data) {
+		return eu, errSFlowRecordTooShort
+	}
 	*data, srcUserBytes = (*data)[srcUserLenWithPad:], (*data)[:srcUserLenWithPad]
 	eu.SourceUserID = string(srcUserBytes[:srcUserLen])
 	*data, eu.DestinationCharSet = (*data)[4:], SFlowCharSet(binary.BigEndian.Uint32((*data)[:4]))
 	*data, dstUserLen = (*data)[4:], binary.BigEndian.Uint32((*data)[:4])
 	dstUserLenWithPad = int(dstUserLen + ((4 - dstUserLen) % 4))
+	if int(dstUserLen) > dstUserLenWithPad || dstUserLenWithPad > len(*data) {
+		return eu, errSFlowRecordTooShort
+	}
 	*data, dstUserBytes = (*data)[dstUserLenWithPad:], (*data)[:dstUserLenWithPad]
 	eu.DestinationUserID = string(dstUserBytes[:dstUserLen])
 	return eu, nil
@@ -1771,6 +1862,9 @@ type SFlowIpv4Record struct {
 }
 
 func decodeSFlowIpv4Record(data *[]byte) (SFlowIpv4Record, error) {
+	if len(*data) < 32 {
+		return SFlowIpv4Record{}, errSFlowRecordTooShort
+	}
 	si := SFlowIpv4Record{}
 
 	*data, si.Length = (*data)[4:], binary.BigEndian.Uint32((*data)[:4])
@@ -1829,6 +1923,9 @@ type SFlowIpv6Record struct {
 }
 
 func decodeSFlowIpv6Record(data *[]byte) (SFlowIpv6Record, error) {
+	if len(*data) < 56 {
+		return SFlowIpv6Record{}, errSFlowRecordTooShort
+	}
 	si := SFlowIpv6Record{}
 
 	*data, si.Length = (*data)[4:], binary.BigEndian.Uint32((*data)[:4])
@@ -1864,13 +1961,19 @@ type SFlowExtendedIpv4TunnelEgressRecord struct {
 }
 
 func decodeExtendedIpv4TunnelEgress(data *[]byte) (SFlowExtendedIpv4TunnelEgressRecord, error) {
+	if len(*data) < 8 {
+		return SFlowExtendedIpv4TunnelEgressRecord{}, errSFlowRecordTooShort
+	}
 	rec := SFlowExtendedIpv4TunnelEgressRecord{}
 	var fdf SFlowFlowDataFormat
 
 	*data, fdf = (*data)[4:], SFlowFlowDataFormat(binary.BigEndian.Uint32((*data)[:4]))
 	rec.EnterpriseID, rec.Format = fdf.decode()
 	*data, rec.FlowDataLength = (*data)[4:], binary.BigEndian.Uint32((*data)[:4])
-	rec.SFlowIpv4Record, _ = decodeSFlowIpv4Record(data)
+	var err error
+	if rec.SFlowIpv4Record, err = decodeSFlowIpv4Record(data); err != nil {
+		return SFlowExtendedIpv4TunnelEgressRecord{}, err
+	}
 
 	return rec, nil
 }
@@ -1896,13 +1999,19 @@ type SFlowExtendedIpv4TunnelIngressRecord struct {
 }
 
 func decodeExtendedIpv4TunnelIngress(data *[]byte) (SFlowExtendedIpv4TunnelIngressRecord, error) {
+	if len(*data) < 8 {
+		return SFlowExtendedIpv4TunnelIngressRecord{}, errSFlowRecordTooShort
+	}
 	rec := SFlowExtendedIpv4TunnelIngressRecord{}
 	var fdf SFlowFlowDataFormat
 
 	*data, fdf = (*data)[4:], SFlowFlowDataFormat(binary.BigEndian.Uint32((*data)[:4]))
 	rec.EnterpriseID, rec.Format = fdf.decode()
 	*data, rec.FlowDataLength = (*data)[4:], binary.BigEndian.Uint32((*data)[:4])
-	rec.SFlowIpv4Record, _ = decodeSFlowIpv4Record(data)
+	var err error
+	if rec.SFlowIpv4Record, err = decodeSFlowIpv4Record(data); err != nil {
+		return SFlowExtendedIpv4TunnelIngressRecord{}, err
+	}
 
 	return rec, nil
 }
@@ -1928,13 +2037,19 @@ type SFlowExtendedIpv6TunnelEgressRecord struct {
 }
 
 func decodeExtendedIpv6TunnelEgress(data *[]byte) (SFlowExtendedIpv6TunnelEgressRecord, error) {
+	if len(*data) < 8 {
+		return SFlowExtendedIpv6TunnelEgressRecord{}, errSFlowRecordTooShort
+	}
 	rec := SFlowExtendedIpv6TunnelEgressRecord{}
 	var fdf SFlowFlowDataFormat
 
 	*data, fdf = (*data)[4:], SFlowFlowDataFormat(binary.BigEndian.Uint32((*data)[:4]))
 	rec.EnterpriseID, rec.Format = fdf.decode()
 	*data, rec.FlowDataLength = (*data)[4:], binary.BigEndian.Uint32((*data)[:4])
-	rec.SFlowIpv6Record, _ = decodeSFlowIpv6Record(data)
+	var err error
+	if rec.SFlowIpv6Record, err = decodeSFlowIpv6Record(data); err != nil {
+		return SFlowExtendedIpv6TunnelEgressRecord{}, err
+	}
 
 	return rec, nil
 }
@@ -1960,13 +2075,19 @@ type SFlowExtendedIpv6TunnelIngressRecord struct {
 }
 
 func decodeExtendedIpv6TunnelIngress(data *[]byte) (SFlowExtendedIpv6TunnelIngressRecord, error) {
+	if len(*data) < 8 {
+		return SFlowExtendedIpv6TunnelIngressRecord{}, errSFlowRecordTooShort
+	}
 	rec := SFlowExtendedIpv6TunnelIngressRecord{}
 	var fdf SFlowFlowDataFormat
 
 	*data, fdf = (*data)[4:], SFlowFlowDataFormat(binary.BigEndian.Uint32((*data)[:4]))
 	rec.EnterpriseID, rec.Format = fdf.decode()
 	*data, rec.FlowDataLength = (*data)[4:], binary.BigEndian.Uint32((*data)[:4])
-	rec.SFlowIpv6Record, _ = decodeSFlowIpv6Record(data)
+	var err error
+	if rec.SFlowIpv6Record, err = decodeSFlowIpv6Record(data); err != nil {
+		return SFlowExtendedIpv6TunnelIngressRecord{}, err
+	}
 
 	return rec, nil
 }
@@ -1991,6 +2112,9 @@ type SFlowExtendedDecapsulateEgressRecord struct {
 }
 
 func decodeExtendedDecapsulateEgress(data *[]byte) (SFlowExtendedDecapsulateEgressRecord, error) {
+	if len(*data) < 12 {
+		return SFlowExtendedDecapsulateEgressRecord{}, errSFlowRecordTooShort
+	}
 	rec := SFlowExtendedDecapsulateEgressRecord{}
 	var fdf SFlowFlowDataFormat
 
@@ -2024,6 +2148,9 @@ type SFlowExtendedDecapsulateIngressRecord struct {
 }
 
 func decodeExtendedDecapsulateIngress(data *[]byte) (SFlowExtendedDecapsulateIngressRecord, error) {
+	if len(*data) < 12 {
+		return SFlowExtendedDecapsulateIngressRecord{}, errSFlowRecordTooShort
+	}
 	rec := SFlowExtendedDecapsulateIngressRecord{}
 	var fdf SFlowFlowDataFormat
 
@@ -2057,6 +2184,9 @@ type SFlowExtendedVniEgressRecord struct {
 }
 
 func decodeExtendedVniEgress(data *[]byte) (SFlowExtendedVniEgressRecord, error) {
+	if len(*data) < 12 {
+		return SFlowExtendedVniEgressRecord{}, errSFlowRecordTooShort
+	}
 	rec := SFlowExtendedVniEgressRecord{}
 	var fdf SFlowFlowDataFormat
 
@@ -2090,6 +2220,9 @@ type SFlowExtendedVniIngressRecord struct {
 }
 
 func decodeExtendedVniIngress(data *[]byte) (SFlowExtendedVniIngressRecord, error) {
+	if len(*data) < 12 {
+		return SFlowExtendedVniIngressRecord{}, errSFlowRecordTooShort
+	}
 	rec := SFlowExtendedVniIngressRecord{}
 	var fdf SFlowFlowDataFormat
 
@@ -2226,6 +2359,9 @@ type SFlowGenericInterfaceCounters struct {
 }
 
 func decodeGenericInterfaceCounters(data *[]byte) (SFlowGenericInterfaceCounters, error) {
+	if len(*data) < 96 {
+		return SFlowGenericInterfaceCounters{}, errSFlowRecordTooShort
+	}
 	gic := SFlowGenericInterfaceCounters{}
 	var cdf SFlowCounterDataFormat
 
@@ -2363,6 +2499,9 @@ type SFlowVLANCounters struct {
 }
 
 func decodeVLANCounters(data *[]byte) (SFlowVLANCounters, error) {
+	if len(*data) < 36 {
+		return SFlowVLANCounters{}, errSFlowRecordTooShort
+	}
 	vc := SFlowVLANCounters{}
 	var cdf SFlowCounterDataFormat
 
@@ -2402,6 +2541,9 @@ type SFlowLACPCounters struct {
 }
 
 func decodeLACPCounters(data *[]byte) (SFlowLACPCounters, error) {
+	if len(*data) < 64 {
+		return SFlowLACPCounters{}, errSFlowRecordTooShort
+	}
 	la := SFlowLACPCounters{}
 	var cdf SFlowCounterDataFormat
 
@@ -2458,6 +2600,9 @@ type SFlowProcessorCounters struct {
 }
 
 func decodeProcessorCounters(data *[]byte) (SFlowProcessorCounters, error) {
+	if len(*data) < 36 {
+		return SFlowProcessorCounters{}, errSFlowRecordTooShort
+	}
 	pc := SFlowProcessorCounters{}
 	var cdf SFlowCounterDataFormat
 	var high32, low32 uint32
@@ -2506,6 +2651,9 @@ type SFlowEthernetFrameFlowRecord struct {
 //	  +--+--+--+--+--+--+--+--+--+--+--+--+--+--+--+--+
 
 func decodeEthernetFrameFlowRecord(data *[]byte) (SFlowEthernetFrameFlowRecord, error) {
+	if len(*data) < 32 {
+		return SFlowEthernetFrameFlowRecord{}, errSFlowRecordTooShort
+	}
 	es := SFlowEthernetFrameFlowRecord{}
 	var fdf SFlowFlowDataFormat
 
@@ -2528,6 +2676,9 @@ type SFlowOpenflowPortCounters struct {
 }
 
 func decodeOpenflowportCounters(data *[]byte) (SFlowOpenflowPortCounters, error) {
+	if len(*data) < 20 {
+		return SFlowOpenflowPortCounters{}, errSFlowRecordTooShort
+	}
 	ofp := SFlowOpenflowPortCounters{}
 	var cdf SFlowCounterDataFormat
 
@@ -2554,6 +2705,9 @@ type SFlowAppresourcesCounters struct {
 }
 
 func decodeAppresourcesCounters(data *[]byte) (SFlowAppresourcesCounters, error) {
+	if len(*data) < 48 {
+		return SFlowAppresourcesCounters{}, errSFlowRecordTooShort
+	}
 	app := SFlowAppresourcesCounters{}
 	var cdf SFlowCounterDataFormat
 
@@ -2584,6 +2738,9 @@ type SFlowOVSDPCounters struct {
 }
 
 func decodeOVSDPCounters(data *[]byte) (SFlowOVSDPCounters, error) {
+	if len(*data) < 32 {
+		return SFlowOVSDPCounters{}, errSFlowRecordTooShort
+	}
 	dp := SFlowOVSDPCounters{}
 	var cdf SFlowCounterDataFormat
 
@@ -2607,13 +2764,22 @@ type SFlowPORTNAME struct {
 	Str string
 }
 
-func decodeString(data *[]byte) (len uint32, str string) {
-	*data, len = (*data)[4:], binary.BigEndian.Uint32((*data)[:4])
-	str = string((*data)[:len])
-	if (len % 4) != 0 {
-		len += 4 - len%4
+func decodeString(data *[]byte) (length uint32, str string, err error) {
+	if len(*data) < 4 {
+		return 0, "", errSFlowRecordTooShort
 	}
-	*data = (*data)[len:]
+	*data, length = (*data)[4:], binary.BigEndian.Uint32((*data)[:4])
+	if uint64(length) > uint64(len(*data)) {
+		return 0, "", errSFlowRecordTooShort
+	}
+	str = string((*data)[:length])
+	if (length % 4) != 0 {
+		length += 4 - length%4
+	}
+	if uint64(length) > uint64(len(*data)) {
+		return 0, "", errSFlowRecordTooShort
+	}
+	*data = (*data)[length:]
 	return
 }
 
@@ -2621,10 +2787,16 @@ func decodePortnameCounters(data *[]byte) (SFlowPORTNAME, error) {
 	pn := SFlowPORTNAME{}
 	var cdf SFlowCounterDataFormat
 
+	if len(*data) < 8 {
+		return pn, errSFlowRecordTooShort
+	}
 	*data, cdf = (*data)[4:], SFlowCounterDataFormat(binary.BigEndian.Uint32((*data)[:4]))
 	pn.EnterpriseID, pn.Format = cdf.decode()
 	*data, pn.FlowDataLength = (*data)[4:], binary.BigEndian.Uint32((*data)[:4])
-	pn.Len, pn.Str = decodeString(data)
+	var err error
+	if pn.Len, pn.Str, err = decodeString(data); err != nil {
+		return pn, err
+	}
 
 	return pn, nil
 }
